@@ -52,6 +52,24 @@ Print Assumptions C10_vector_binary.
 Theorem C10_cross d1 d2 : decides (guard_cross d1 d2) (d1 = 3 /\ d2 = 3).
 Proof. exact (cross_spec d1 d2). Qed.
 Print Assumptions C10_cross.
+(** double operator*(Vector) and Angle(v1, v2), which has no shape test of its own: its verdict is the one of
+    the Dot inside v1 * v2, for BOTH orders of unequal sizes (the statement is symmetric in d1, d2), incl. empty operands *)
+Theorem C10_vector_product_operator d1 d2 : decides (guard_vec_mul d1 d2) (d1 = d2).
+Proof. exact (vec_mul_spec d1 d2). Qed.
+Print Assumptions C10_vector_product_operator.
+Theorem C10_angle d1 d2 : decides (guard_angle d1 d2) (d1 = d2).
+Proof. exact (angle_spec d1 d2). Qed.
+Print Assumptions C10_angle.
+Example C10_angle_witness : guard_angle 3 3 = Ok tt /\ guard_angle 2 3 = Exit /\ guard_angle 3 2 = Exit /\ guard_angle 0 3 = Exit /\ guard_angle 0 0 = Ok tt.
+Proof. repeat split; reflexivity. Qed.
+(** "Every request that is meaningful returns normally": operator== of vectors of any two sizes, the outer product
+    of vectors of any two sizes (no out-of-bounds access either: the result is Ok, not OOB) *)
+Theorem C10_vector_equality_returns d1 d2 : guard_vec_eq d1 d2 = Ok tt.
+Proof. exact (vec_eq_returns d1 d2). Qed.
+Print Assumptions C10_vector_equality_returns.
+Theorem C10_outer_product_returns d1 d2 : guard_outer d1 d2 = Ok tt.
+Proof. exact (outer_returns d1 d2). Qed.
+Print Assumptions C10_outer_product_returns.
 (** Matrix Plus / Minus (rows compared with rows, columns with columns) and += / -= *)
 Theorem C10_matrix_sum r1 c1 r2 c2 : 0 <= r1 ->
   decides (guard_mat_plus r1 c1 r2 c2) (r1 = r2 /\ c1 = c2) /\ decides (guard_mat_pluseq r1 c1 r2 c2) (r1 = r2 /\ c1 = c2).
@@ -341,6 +359,40 @@ Theorem C10_vector_history d ops p v : vec_session d ops p = Ok v ->
   (forall d', vec_probe_guard v (VPCross d') = guard_cross (v_dim v) d').
 Proof. exact (fun H => conj (vec_session_wf d ops p v H) (vec_probe_wf v (vec_session_wf d ops p v H))). Qed.
 Print Assumptions C10_vector_history.
+(** after any history of Resize / Assign / copy / assignment / += the binary requests (Dot, sum, difference, compound assignment, product operator), Angle and Cross
+    decide conformability with the object as the left AND as the right operand; operator== always answers *)
+Theorem C10_vector_binary_either_side_after_history d ops p v : vec_session d ops p = Ok v ->
+  (forall d', decides (vec_probe_guard v (VPBinary d')) (v_dim v = d')) /\
+  (forall d', decides (vec_probe_guard v (VPBinaryR d')) (v_dim v = d')) /\
+  (forall d', decides (vec_probe_guard v (VPAngle d')) (v_dim v = d')) /\
+  (forall d', decides (vec_probe_guard v (VPAngleR d')) (v_dim v = d')) /\
+  (forall d', decides (vec_probe_guard v (VPCrossR d')) (v_dim v = 3 /\ d' = 3)) /\
+  (forall d', vec_probe_guard v (VPEq d') = Ok tt /\ vec_probe_guard v (VPEqR d') = Ok tt).
+Proof. exact (fun H => vec_probe_sides v (vec_session_wf d ops p v H)). Qed.
+Print Assumptions C10_vector_binary_either_side_after_history.
+Example C10_vector_binary_either_side_witness :
+  vec_session 3 [VResize 2; VCopy] (VPAngleR 2) = Ok {| v_dim := 2; v_len := 2 |} /\ vec_session 3 [VResize 2; VCopy] (VPAngleR 3) = Exit /\
+  vec_session 2 [VSet 0] (VPBinaryR 3) = Exit.
+Proof. repeat split; reflexivity. Qed.
+(** Every history of a Vector, of any length, refines the mathematical size [vec_dims d ops] (Resize / Assign / assignment set the
+    size, a copy keeps it, += keeps it and is meaningless for another size): the process ends exactly when a += in the
+    history is non-conformable, never reads out of bounds, and otherwise the object is the one a fresh Vector(d') would be -
+    so the request that follows is decided as on a fresh object (no hypothesis on the sizes) *)
+Theorem C10_vector_history_refines_size d ops :
+  vec_history (vec_new d) ops = match vec_dims d ops with Some d' => Ok (vec_new d') | None => Exit end.
+Proof. exact (vec_history_refines ops d). Qed.
+Print Assumptions C10_vector_history_refines_size.
+Theorem C10_vector_session_refines_size d ops p :
+  vec_session d ops p = match vec_dims d ops with
+                        | Some d' => rbind (vec_probe_guard (vec_new d') p) (fun _ => Ok (vec_new d'))
+                        | None => Exit end.
+Proof. exact (vec_session_refines d ops p). Qed.
+Print Assumptions C10_vector_session_refines_size.
+Example C10_vector_history_refines_size_witness :
+  vec_dims 3 [VResize 2; VCopy; VAddEq 2; VSet 5] = Some 5 /\ vec_dims 3 [VResize 2; VAddEq 3; VSet 5] = None /\
+  vec_session 3 [VResize 2; VCopy; VAddEq 2; VSet 5] (VPAngleR 5) = Ok (vec_new 5) /\
+  vec_session 3 [VResize 2; VCopy; VAddEq 2; VSet 5] (VPAngleR 6) = Exit.
+Proof. repeat split; reflexivity. Qed.
 (** "Factorial beyond 170" whatever was requested before: a sequence of Factorial / Binomial_Coefficient requests in one
     process returns iff every single one is meaningful, for every content of the memo table *)
 Theorem C10_factorial_history memo cs : Forall fcall_unsigned cs ->
